@@ -232,6 +232,30 @@ def check(R):
     # ---- f --------------------------------------------------------------------
     with R.clause('f'):
         fabric_mutators_persist(R)
+        # ... and a mutator that REFUSES leaves the in-memory fabric as it was (what the store holds): Fabrics::update_label checks that the
+        # new label fits before it clears the old one - clear() is cut by the length test.  (A 33-byte label was answered CONSTRAINT_ERROR
+        # with the running node's label already wiped, while the store kept the old one.)
+        ul = R.body('fabric::Fabrics::update_label')
+        clears = [t.bb for t in ul.calls() if any(n.endswith('::clear') for n in t.callee_names())]
+        R.floor('label.clear() in Fabrics::update_label', len(clears), 1)
+
+        def fits():
+            e = set()
+            islen = lambda s_: any(c.endswith('::len') for c in src_calls(s_))
+            iscap = lambda s_: any(c.endswith('::capacity') for c in src_calls(s_)) or any(isinstance(v, int) and v > 0 for v in src_consts(s_))
+            for bb, te, fe in prims.cmp_guard_edges(ul, 'Gt', islen, iscap, symmetric=False):
+                e |= fe
+            for bb, te, fe in prims.cmp_guard_edges(ul, 'Le', islen, iscap, symmetric=False):
+                e |= te
+            for bb, te, fe in prims.cmp_guard_edges(ul, 'Lt', iscap, islen, symmetric=False):
+                e |= fe
+            for bb, te, fe in prims.cmp_guard_edges(ul, 'Ge', iscap, islen, symmetric=False):
+                e |= te
+            if not e:
+                from facts import GuardMissing
+                raise GuardMissing(f'{ul.fn}: the length of the new label is not compared with the capacity before the old label is cleared')
+            return e
+        R.cut('P2', ul, 'clear the current label', clears, 'the new label fits (label.len() <= capacity)', fits)
 
     # ---- h --------------------------------------------------------------------
     with R.clause('h'):
